@@ -41,6 +41,7 @@ def wild_line(rng, info):
     if k < 0.6:
         return rng.choice(["pc = 9999", "pc = -5", "pc = 0", "R15 = 0xD000", "@(65535) = 1", "@(0-1) = 1", "pc = %d" % info.n,
                            "R1 = 70000", "R1 = R2 / R0", "R0 = 5", "goto 1", "next 100000", "n 50", "7 = 3", "5 = R1",
+                           "next 1000000000000", "n 99999999999999999999", "step 1000000000000", "next 4294967296",
                            "R13 = 9999", "R13 = 65535", "execute CALL(R12, R13)", "execute RETURN(R12, R13)", "info", "i stack",
                            "info stack", "print :l R13", "print :l -1", "p :l 9999", "print :c -1", "print :xdsc 65535",
                            "print :b @(0-1)", "execute SWI(1)", "execute RTI()", "execute HALT()", "execute NOP() NOP()"])
@@ -63,6 +64,7 @@ def survival_oracle(rng, s, n):
             continue
         lines.append(line)
         dbg = rs.shell.debugger
+        was_finished = dbg.finished()
         if dbg.finished():
             stats["finished_state_lines"] += 1
             if not 0 <= dbg.vm.pc < len(dbg.program.code):
@@ -73,11 +75,41 @@ def survival_oracle(rng, s, n):
             stats["timeouts"] += 1
             first = line.strip().lower().split(" ")[0]
             if first and any(c.startswith(first) for c in ("continue", "next", "step", "execute")):
+                if was_finished and not first.startswith("e"):
+                    return ("the program had finished, yet the shell did not return from %r within 3 s (after %r)"
+                            % (line, lines[-6:-1])), stats
                 return None, stats          # a program that loops: not the shell's doing
             return "the shell did not return from %r within 3 s (after %r)" % (line, lines[-6:-1]), stats
         if r["exc"]:
             return "the shell raised %s on %r (after %r)" % (r["exc"], line, lines[-6:-1]), stats
     return None, stats
+
+
+def finished_counts_oracle():
+    """Once the program has finished, a stepping command returns at once, whatever count it is given (seed C14e:
+    `next <n>` kept looping n times)."""
+    out = []
+    for text in ("SET(R1, 1)\nHALT()\n", "INC(R1, 1)\nINC(R2, 1)\n"):
+        for cmd in ("next 1000000000000", "n 99999999999999999999", "next 4294967296", "step 1000000000000", "s 9999999999",
+                    "continue", "c"):
+            rs = dc.RealSession(text, {"big_stack": False, "init": [], "warn_return_on": True})
+            if not rs.ok:
+                continue
+            # from the start of a two-instruction program, and again once it has finished
+            r = rs.command(cmd, budget=3.0)
+            if r["exc"] == "Budget":
+                out.append("on a program of two instructions the shell did not return from %r within 3 s" % cmd)
+                break
+            if not r["exc"]:
+                rs.command("continue", budget=3.0)
+                r = rs.command(cmd, budget=3.0)
+            if r["exc"] == "Budget":
+                out.append("the program had finished, yet the shell did not return from %r within 3 s" % cmd)
+                break
+            if r["exc"]:
+                out.append("the shell raised %s on %r after the program had finished" % (r["exc"], cmd))
+                break
+    return out
 
 
 def eval_oracle(rng, s, n):
@@ -153,6 +185,8 @@ def correspondence(ctx, model_available=True):
             sv[k] += st[k]
         if p:
             spec_failures.append({"what": p, "session": dp.session_json(s)})
+    for b in finished_counts_oracle():
+        spec_failures.append({"what": b})
     # (3) parser: model vs implementation on well-formed, damaged and arbitrary texts
     pres = {"cases": 0, "agree": 0}
     if model_available:
